@@ -41,7 +41,7 @@ from ..common import sx, Q, parse_sx
 from .. import futil, ser
 from ..futil import funsor, Tensor, Number, Variable, Bint, Real, Reals, ops, exact, same_num
 
-from funsor.terms import Cat, Lambda, Independent, Reduce, Subs, Funsor, Scatter, Approximate
+from funsor.terms import Cat, Lambda, Independent, Reduce, Subs, Funsor, Scatter, Approximate, Slice
 from funsor.cnf import Contraction
 from funsor.interpretations import reflect, lazy, eager, normalize
 from funsor.interpreter import reinterpret
@@ -331,8 +331,10 @@ def kind_of(r):
     t = r[0]
     if t in ("leaf", "binary", "contr", "indep", "rget", "markov", "integ", "scatter", "approx", "fac"):
         return "real"
-    if t in ("bleaf", "bvar", "bnum"):
+    if t in ("bleaf", "bvar", "bnum", "bslice"):
         return "bint"
+    if t == "msubs":
+        return kind_of(r[1])
     if t == "reduce":
         return kind_of(r[2])
     if t == "lamget":
@@ -353,6 +355,13 @@ def free(r):
         return {r[1]}
     if t == "rget":
         return {r[2]}
+    if t == "bslice":
+        return {r[1]}
+    if t == "msubs":       # ("msubs", body, ((key, value), …)): ONE simultaneous substitution call
+        out = free(r[1]) - {k for k, _ in r[2]}
+        for _, v in r[2]:
+            out |= free(v)
+        return out
     if t in ("bnum", "bnum2"):
         return set()
     if t == "binary":
@@ -405,12 +414,12 @@ def real_names(r):
     return out
 
 
-TAGS = {"fac", "markov", "integ", "scatter", "approx", "rget", "leaf", "bleaf", "bleaf2", "bvar", "bnum", "bnum2", "binary", "reduce", "lamget", "contr", "subs", "cat", "indep"}
+TAGS = {"msubs", "bslice", "fac", "markov", "integ", "scatter", "approx", "rget", "leaf", "bleaf", "bleaf2", "bvar", "bnum", "bnum2", "binary", "reduce", "lamget", "contr", "subs", "cat", "indep"}
 
 
 def subrecipes(r):
     yield r
-    kids = r[3] if r[0] == "fac" else r[1:]
+    kids = r[3] if r[0] == "fac" else ((r[1],) + tuple(v for _, v in r[2])) if r[0] == "msubs" else r[1:]
     for x in kids:
         if isinstance(x, tuple) and x and isinstance(x[0], str) and x[0] in TAGS:
             yield from subrecipes(x)
@@ -441,15 +450,17 @@ def binders(r):
             out.append(s[2])
         elif t == "fac":
             out += list(s[2])
+        elif t == "msubs":
+            out += [k for k, _ in s[2]]
     return out
 
 
 def depth_of(r):
     """nesting depth of binder constructors"""
     t = r[0]
-    kids = [x for x in (r[3] if t == "fac" else r[1:]) if isinstance(x, tuple) and x and isinstance(x[0], str) and x[0] in TAGS]
+    kids = [x for x in (r[3] if t == "fac" else ((r[1],) + tuple(v for _, v in r[2])) if t == "msubs" else r[1:]) if isinstance(x, tuple) and x and isinstance(x[0], str) and x[0] in TAGS]
     d = max([depth_of(k) for k in kids], default=0)
-    return d + (1 if t in ("reduce", "lamget", "contr", "subs", "cat", "indep", "markov", "integ", "scatter", "fac") else 0)
+    return d + (1 if t in ("reduce", "lamget", "contr", "subs", "cat", "indep", "markov", "integ", "scatter", "fac", "msubs") else 0)
 
 
 # ------------------------------------------------------------------------------------------------
@@ -478,6 +489,11 @@ def build(r, n, cache=None):
         return Tensor(data, OrderedDict((x, Bint[n]) for x in r[2]), dtype)
     if t == "bvar":
         return Variable(r[1], Bint[n])
+    if t == "bslice":
+        return Slice(r[1], 0, n, 1, n)
+    if t == "msubs":
+        body = build(r[1], n, cache)
+        return body(**OrderedDict((k, build(v, n, cache)) for k, v in r[2]))
     if t == "rget":
         return Variable(r[1], Reals[n])[r[2]]
     if t == "bnum":
@@ -550,6 +566,10 @@ def wire(r, n):
         return ["tensor", [[Q(x), n] for x in r[2]], ["bint", 2 * n], list(r[3])]
     if t == "bvar":
         return ["var", Q(r[1]), B]
+    if t == "bslice":
+        return ["slice", Q(r[1]), 0, n, 1, n]
+    if t == "msubs":
+        return ["subs", wire(r[1], n), [[Q(k), wire(v, n)] for k, v in r[2]]]
     if t == "rget":
         return ["binary", ["getitem", ["offset", 0]], ["var", Q(r[1]), ["real", n]], ["var", Q(r[2]), B]]
     if t == "bnum":
@@ -619,6 +639,10 @@ def pyof(r, n, names=None):
                 + f"]), {dtype})")
     if t == "bvar":
         return f"Variable({r[1]!r}, Bint[{n}])"
+    if t == "bslice":
+        return f"Slice({r[1]!r}, 0, {n}, 1, {n})"
+    if t == "msubs":
+        return f"({pyof(r[1], n)})(**OrderedDict([" + ", ".join(f"({k!r}, {pyof(v, n)})" for k, v in r[2]) + "]))"
     if t == "rget":
         return f"Variable({r[1]!r}, Reals[{n}])[{r[2]!r}]"
     if t == "bnum":
@@ -674,7 +698,7 @@ from funsor.domains import Bint, Real, Reals
 from funsor.tensor import Tensor
 from funsor.terms import Number, Variable, Cat, Lambda, Independent, Reduce
 from funsor.cnf import Contraction
-from funsor.terms import Scatter
+from funsor.terms import Scatter, Slice
 from funsor.sum_product import MarkovProduct
 from funsor.integrate import Integrate
 from funsor.interpretations import reflect, lazy, eager, normalize
@@ -721,8 +745,11 @@ def pyeval(r, env, n, xval=None):
         for x in r[2]:
             idx = idx * n + env[x]
         return r[3][idx]
-    if t == "bvar":
+    if t in ("bvar", "bslice"):
         return env[r[1]]
+    if t == "msubs":       # simultaneous: every value is evaluated in the CALLER's environment
+        vals = {k: pyeval(v, env, n, xval) for k, v in r[2]}
+        return pyeval(r[1], {**env, **vals}, n, xval)
     if t == "rget":
         return RVALS[r[1]][env[r[2]]]
     if t in ("bnum", "bnum2"):
@@ -815,6 +842,14 @@ def rename_binders(r, counter=None, m=None):
         return (t, r[1], tuple(nm(x) for x in r[2]), r[3])
     if t == "bvar":
         return ("bvar", nm(r[1]))
+    if t == "bslice":
+        return ("bslice", nm(r[1]))
+    if t == "msubs":
+        # key-renaming invariance: t(σ) = t[k := q](σ[q/k]) — the keys are the binders of this one call
+        us = [fresh() for _ in r[2]]
+        m2 = {**m, **{k: u for (k, _), u in zip(r[2], us)}}
+        return ("msubs", rename_binders(r[1], counter, m2),
+                tuple((u, rename_binders(v, counter, m)) for (_, v), u in zip(r[2], us)))
     if t == "rget":
         return ("rget", r[1], nm(r[2]))
     if t in ("bnum", "bnum2"):
@@ -1300,6 +1335,49 @@ def enum_stream(ctx):
             cases.append((n, t3, (1, 2) if has_indep(t3) else None, ins))
     ctx.count("enumerated:two-level-nestings-x-name-assignments", n_exh)
     check_cases(ctx, cases, "enum")
+
+
+def simsubs_stream(ctx):
+    """SIMULTANEOUS substitution into ground Tensors / eager results: the keys of one call are binders of that call.
+    Every pattern {key a renamed (Variable / Slice) onto the name of another key b of the same call, b replaced by a
+    Number / Tensor over any pool name / Slice / another rename}, both keyword orders, optional third key, 2-3 inputs
+    of one size; gates as everywhere (pointwise definition via pyeval and Lean `denote` of the Subs term, inputs =
+    free names of the values, keys renamed to fresh names give the same table)."""
+    rng = ctx.rng
+    quick = ctx.tier == "quick"
+    cases = []
+    for n in ([3] if quick else [2, 3]):
+        g = Gen(rng, n)
+        for names in list(itertools.permutations(POOL, 2)) + list(itertools.permutations(POOL, 3)):
+            leaf = g.leaf("real", list(names))
+            bodies = [leaf, ("binary", "add", g.leaf("real", list(names[:1])), g.leaf("real", list(names[::-1])))]
+            for a, b in itertools.permutations(names, 2):
+                for va in (("bvar", b), ("bslice", b)):
+                    vbs = [("bnum", rng.randrange(n))]
+                    vbs += [g.leaf("bint", [c]) for c in POOL]
+                    vbs += [("bslice", c) for c in POOL if c != b]
+                    vbs += [("bvar", c) for c in POOL if c != b]
+                    for vb in vbs:
+                        for order in (0, 1):
+                            pairs = [(a, va), (b, vb)]
+                            if order:
+                                pairs.reverse()
+                            third = [x for x in names if x not in (a, b)]
+                            if third and rng.random() < 0.5:
+                                c = third[0]
+                                pairs.insert(rng.randrange(3), (c, rng.choice([("bnum", 0), ("bvar", b), ("bvar", a),
+                                                                                   g.leaf("bint", [b])])))
+                            body = bodies[rng.randrange(2)]
+                            cases.append((n, ("msubs", body, tuple(pairs))))
+    if quick and len(cases) > 500:
+        cases = rng.sample(cases, 500)
+    out = []
+    for n, r in cases:
+        ins = sorted(free(r))
+        if len(ins) <= 4:
+            out.append((n, r, None, ins))
+    ctx.count("simsubs:cases", len(out))
+    check_cases(ctx, out, "simsubs", modes=["eager", "lazy", "reflect"])
 
 
 def fusion_stream(ctx):
@@ -1978,6 +2056,7 @@ def correspond(ctx):
                 "name that is also free somewhere in the expression or bound twice; distinct by full content." %
                 (3 if quick else 4))
     enum_stream(ctx)
+    simsubs_stream(ctx)
     fusion_stream(ctx)
     clean_stream(ctx, 1000 if quick else 6000)
     extras_stream(ctx, 80 if quick else 600)
